@@ -31,6 +31,7 @@ JOBS = [
     {
         "name": "util.check_tag.contract",
         "files": ["harness/h_check_tag.c", "repo:src/backend/tinyjambu-util.c"],
+        "allow_no_body": ["tinyjambu_clean"],
         "functions": ["tinyjambu_aead_check_tag"],
         "enforce": [CT],
         "loops": [LOOP_TAG, loop_clear(1)],
@@ -50,5 +51,14 @@ JOBS = [
         "props": ["C03", "C04", "C06"],
         "unbounded": "plaintext_len <= 2^28-1; tag size fixed at 8 (what every call site passes), all 2^128 tag pairs",
         "cost": 5,
+    },
+    {
+        "name": "util.check_tag.grid",
+        "files": ["harness/h_check_tag_grid.c", "repo:src/backend/tinyjambu-util.c", "repo:src/backend/tinyjambu-clean.c"],
+        "functions": ["tinyjambu_aead_check_tag"],
+        "grid": [{"label": "pl%d" % n, "defs": ["TJV_PL=%d" % n]} for n in (0, 1, 3, 4, 5, 8, 13, 21)],
+        "props": ["C03", "C04", "C06"],
+        "unwind": 40, "cost": 8, "mem_gb": 4, "mem_share": 0.25,
+        "bounded": "plaintext lengths {0,1,3,4,5,8,13,21}, every alignment 0..7, all tag pairs and contents (loops unwound; no loop contract, so refactored loops are still decided)",
     },
 ]
